@@ -216,7 +216,7 @@ where
                         MIN_REQUIRED
                     };
                     if remaining < req {
-                        *state = DecoderState::ReadingAddressedHeader(flags);
+                        *state = DecoderState::ReadingRegistration(flags);
                         break Ok(None);
                     }
                     let mut bytes = src.as_ref();
@@ -236,7 +236,7 @@ where
                         .and_then(|l| l.checked_add(lane_len))
                         .and_then(|l| l.checked_add(ID_LEN));
                     if !matches!(required, Some(l) if bytes.remaining() >= l) {
-                        *state = DecoderState::ReadingAddressedHeader(flags);
+                        *state = DecoderState::ReadingRegistration(flags);
                         break Ok(None);
                     }
                     let host = if has_host {
